@@ -140,6 +140,11 @@ Theorem C13_no_shared_pointee_writes_in_source : ob_no_shared_pointee_writes = t
 Proof. exact ob_no_shared_pointee_writes_true. Qed.
 Print Assumptions C13_no_shared_pointee_writes_in_source.
 
+(* the logger shared by all connections of a Client has no state its log methods write *)
+Theorem C13_loggers_stateless_in_source : ob_loggers_stateless = true.
+Proof. exact ob_loggers_stateless_true. Qed.
+Print Assumptions C13_loggers_stateless_in_source.
+
 (* ownership, model side: an object only goroutine j's program touches is accessed by j alone, under every schedule *)
 Theorem C13_private_object_owner : forall (p0 : pool) (j : nat) (o : obj) (sched : list nat),
   (forall i, i <> j -> touches o (p0 i) = false) ->
